@@ -91,9 +91,10 @@ func runC08(s *core.Sim, tier string) RunInfo {
 		return info()
 	}
 	injectFaults := s.Tape.Coin("fault-mode", 1, 3)
-	if !injectFaults {
-		w.lowerParallelThreshold()
-	}
+	// (also under expiring deadlines: the parallel workers then stop at different heights and
+	// whatever they removed above the lowest failed height is gone - holes inside the range
+	// are allowed until the retry, everything the statement says about a part-way failure is not)
+	w.lowerParallelThreshold()
 	rounds := 1 + s.Tape.Draw("rounds", 4)
 	for r := 0; r < rounds && !s.Failed(); r++ {
 		if m.Empty() {
@@ -248,7 +249,7 @@ func runC08(s *core.Sim, tier string) RunInfo {
 		}
 		// continuation: appends (also of deleted heights), sync, restart
 		for c := s.Tape.Draw("cont", 4); c > 0 && !s.Failed(); c-- {
-			switch core.Pick(s.Tape, "cont-op", []string{"append", "reappend", "restart", "check"}) {
+			switch core.Pick(s.Tape, "cont-op", []string{"append", "reappend", "restart", "crash", "check"}) {
 			case "append":
 				if m.Empty() {
 					continue
@@ -284,6 +285,21 @@ func runC08(s *core.Sim, tier string) RunInfo {
 				}
 				m.Append(a, b)
 				s.Probe("reappend-deleted")
+			case "crash":
+				// the process dies without Stop and a new Store is opened on what the datastore
+				// holds. Everything the model knows is synced at this point (the deletion began
+				// with a Sync and an explicit one follows every append below), so nothing may
+				// be lost or come back: DeleteRange had returned, its effect is permanent.
+				if err := w.Sync(); err != nil {
+					s.Violate("sync-error", nil, "Sync: %v", err)
+					break
+				}
+				hist = append(hist, "crash + reopen")
+				if err := w.CrashReopen(); err != nil {
+					s.Violate("start-error", map[string]string{"after": "crash"}, "Start after crash: %v", err)
+					break
+				}
+				s.Fault("crash-after-delete")
 			case "restart":
 				hist = append(hist, "restart")
 				if err := w.Stop(); err != nil {
